@@ -107,6 +107,26 @@ fn segmented_case(ctx: &mut Ctx, b: &[u8], per: usize) {
     }
 }
 
+/// the writer puts the six bytes into any sink, also one that accepts a few bytes per call; a sink with less room than six
+/// bytes is an error, not a shorter field
+fn segmented_write_case(ctx: &mut Ctx, t: &Track, per: usize) {
+    ctx.oracle_eval("dribbling-writer");
+    let want = write_trk(t);
+    let (t2, t3) = (t.clone(), t.clone());
+    let piece = guard(move || { let mut w = DribbleW::new(per); t2.write_le(&mut w).map(|_| w.inner.into_inner()).map_err(|_| ()) });
+    let input = format!("trk.wseg {} {}", name(t), per);
+    if piece != want {
+        ctx.violation("c14/segmented-write", "written through a sink that accepts a few bytes per call, the wire form is not the six bytes written into memory", &input, &format!("{:?}", want.map(|r| r.map(|b| hex(&b)))), &format!("{:?}", piece.map(|r| r.map(|b| hex(&b)))));
+    }
+    // a fixed buffer with room for `per` < 6 bytes only
+    if per < 6 {
+        let small = guard(move || { let mut buf = vec![0u8; per]; let mut c = Cursor::new(&mut buf[..]); t3.write_le(&mut c).is_ok() });
+        if small != Some(false) {
+            ctx.violation("c14/segmented-write/full-buffer", "writing the six-byte field into a buffer with less room reported success", &input, "an error", &format!("{:?}", small));
+        }
+    }
+}
+
 /// fewer than six bytes are no track name
 fn short_case(ctx: &mut Ctx, b: &[u8]) {
     ctx.oracle_eval("short-input");
@@ -124,6 +144,7 @@ pub fn run(ctx: &mut Ctx) {
             let w: Vec<&str> = l.split_whitespace().collect();
             match w.as_slice() {
                 ["pkt.rt", m, h] => { let f = unhex(h); for (b, off) in track_fields(&ls, *m == "c") { if b.get(1) == f.get(1) && off + 6 <= f.len() { in_packet_case(ctx, *m == "c", &f, off); } } },
+                ["trk.wseg", n, per] => { if let Some(t) = all.iter().find(|t| name(t) == *n) { segmented_write_case(ctx, t, per.parse().unwrap_or(1).max(1)); } },
                 ["trk.seg", h, per] => segmented_case(ctx, &unhex(h), per.parse().unwrap_or(1).max(1)),
                 ["trk.dec", h] => {
                     let b = if *h == "-" { vec![] } else { unhex(h) };
@@ -149,7 +170,8 @@ pub fn run(ctx: &mut Ctx) {
     for u in [&b"ZZ9\0\0\0"[..], b"\0\0\0\0\0\0", b"BL1\0\0\x01", b"RO10XX"] { for per in [1usize, 3, 5] { segmented_case(ctx, u, per); } }
     for u in [&b"BL1\0\0\0BL2\0\0\0"[..], b"RO10X\0tail", b"AS1\0\0\0\x01", b"BL1\0\0"] { for per in [1usize, 2, 4, 7, 64] { segmented_case(ctx, u, per); } }
     for t in all.iter() { let mut b = t.code().as_bytes().to_vec(); b.resize(6, 0); for cut in 1..6usize { short_case(ctx, &b[..cut]); } }
-    ctx.exhaustive_domains.push(format!("all {} wire forms from a reader that gives 1..6 bytes per call; every proper prefix of every wire form", all.len()));
+    for t in all.iter() { for per in [1usize, 2, 4, 5, 6, 64] { segmented_write_case(ctx, t, per); } }
+    ctx.exhaustive_domains.push(format!("every configuration's writer into sinks taking 1..64 bytes per call and into buffers too small; all {} wire forms from a reader that gives 1..6 bytes per call; every proper prefix of every wire form", all.len()));
     // inside packets: every kind with a track field x {every configuration, near misses, unknown names}
     {
         let ls = crate::pkt::load_layouts();
